@@ -575,3 +575,31 @@ pub fn vp8_crop_plane(plane: Vec<u8>, stride: usize, width: usize, height: usize
 pub fn vp8_lf_edge(which: u8, hev_threshold: u8, interior_limit: u8, edge_limit: u8, pixels: Vec<u8>, point: usize, stride: usize) -> Vec<u8> {
     crate::vp8::verif_recon::edge(which, hev_threshold, interior_limit, edge_limit, pixels, point, stride)
 }
+
+/// `bitreader_script` that also reports the state `(buffer, nbits)` the `BitReader` is left in when the script stops at an
+/// error (e.g. what `fill` leaves behind when one of its `fill_buf` calls fails). The reader is lent, not consumed.
+pub fn bitreader_script_state<R: std::io::BufRead>(
+    r: R,
+    ops: &[BitOp],
+) -> (Vec<u64>, Result<(), crate::DecodingError>, u64, u8) {
+    let mut br = crate::lossless::BitReader::verif_new(r);
+    let mut vals = Vec::new();
+    let mut outcome = Ok(());
+    for op in ops {
+        let res = match *op {
+            BitOp::Fill => br.fill(),
+            BitOp::ReadBits(n) => br.read_bits::<u32>(n).map(|v| vals.push(u64::from(v))),
+            BitOp::Consume(n) => br.consume(n),
+            BitOp::Take(n) => {
+                let v = br.peek(n);
+                br.consume(n).map(|()| vals.push(v))
+            }
+        };
+        if let Err(e) = res {
+            outcome = Err(e);
+            break;
+        }
+    }
+    let (_, buffer, nbits) = br.verif_into_parts();
+    (vals, outcome, buffer, nbits)
+}
